@@ -14,11 +14,16 @@ NObs == Len(Obs)
 VARIABLES l, viol
 vars == << l, viol >>
 
-C15_OnlyReadableFiles(o) == o.qerr = "" /\ o.panic = ""
-C15_AckedSurvive(o) == o.missing_acked = 0
-C15_NothingInvented(o) == o.invented = 0
-C15_NoDuplicatesOutsideWindow(o) == ~o.in_window => o.dups = 0
-C15_NoDuplicates(o) == o.dups = 0
+\* "live" observations are no images: a query through the running history's own store instance after an operation returned
+Live(o) == o.mode = "live"
+C15_OnlyReadableFiles(o) == Live(o) \/ (o.qerr = "" /\ o.panic = "")
+C15_AckedSurvive(o) == Live(o) \/ o.missing_acked = 0
+C15_NothingInvented(o) == Live(o) \/ o.invented = 0
+C15_NoDuplicatesOutsideWindow(o) == (~Live(o) /\ ~o.in_window) => o.dups = 0
+C15_NoDuplicates(o) == Live(o) \/ o.dups = 0
+\* C14 for the FileSystemDataStore as MetaStore, with directory scans of the same store landing at every filesystem boundary
+\* of the flushes and merges before it: a query that finishes without an error returns every acknowledged row exactly once
+C14_LiveQueryComplete(o) == (Live(o) /\ o.qerr = "" /\ o.panic = "") => (o.missing_acked = 0 /\ o.dups = 0 /\ o.invented = 0)
 \* C06 (observed here because only this driver fails the store from the inside): once a batch has been answered with an
 \* error its rows are not visible - not in the directory as it is, and not after a power loss
 C06_AckErrAbsent(o) == o.failed_visible = 0
@@ -27,7 +32,7 @@ C27_Silent(o) == o.stdio = 0
 Props(o) ==
   [ C15_OnlyReadableFiles |-> C15_OnlyReadableFiles(o), C15_AckedSurvive |-> C15_AckedSurvive(o),
     C15_NothingInvented |-> C15_NothingInvented(o), C15_NoDuplicatesOutsideWindow |-> C15_NoDuplicatesOutsideWindow(o),
-    C15_NoDuplicates |-> C15_NoDuplicates(o), C06_AckErrAbsent |-> C06_AckErrAbsent(o), C27_Silent |-> C27_Silent(o) ]
+    C15_NoDuplicates |-> C15_NoDuplicates(o), C14_LiveQueryComplete |-> C14_LiveQueryComplete(o), C06_AckErrAbsent |-> C06_AckErrAbsent(o), C27_Silent |-> C27_Silent(o) ]
 
 Init == l = 1 /\ viol = {}
 Next == /\ l <= NObs
@@ -38,7 +43,7 @@ Spec == Init /\ [][Next]_vars
 Report == (l = NObs + 1) => PrintT(<<"MONITOR-REPORT", ToJson([events |-> NObs, violations |-> viol])>>)
 Count(P(_)) == Cardinality({ i \in 1..NObs : P(Obs[i]) })
 Stats == (l = NObs + 1) => PrintT(<<"MONITOR-STATS", ToJson([
-    crash_images |-> Count(LAMBDA o : o.mode = "crash"), power_images |-> Count(LAMBDA o : o.mode = "power"),
+    crash_images |-> Count(LAMBDA o : o.mode = "crash"), live_queries |-> Count(LAMBDA o : o.mode = "live"), power_images |-> Count(LAMBDA o : o.mode = "power"),
     nontrivial |-> Count(LAMBDA o : o.differs), with_acked |-> Count(LAMBDA o : o.acked > 0),
     in_window |-> Count(LAMBDA o : o.in_window), after_failed_flush |-> Count(LAMBDA o : \E i \in 1..Len(o.ops) : o.ops[i].res = "err"), after_merge |-> Count(LAMBDA o : o.after_merge),
     window_dups |-> Count(LAMBDA o : o.in_window /\ o.dups > 0) ])>>)
